@@ -534,7 +534,21 @@ def cases_C17(rng, tier):
                  ("recipient1-prot-alg", "CoseMac", lambda x: b"\x85\x40\xa0\xf6\x40\x82\x83\x40\xa0\xf6\x83" + enc(B(b"\xa1\x01" + x)) + b"\xa0\xf6"),
                  ("nested-recipient1-alg", "CoseRecipient", lambda x: b"\x84\x40\xa0\xf6\x82\x83\x40\xa0\xf6\x83\x40\xa1\x01" + x + b"\xf6"),
                  ("keyset-key2-kty", "CoseKeySet", lambda x: b"\x83\xa1\x01\x04\xa1\x01\x04\xa1\x01" + x),
-                 ("key-op1", "CoseKey", lambda x: b"\xa2\x01\x04\x04\x82\x01" + x), ("crit1-of-3", "Header", lambda x: b"\xa1\x02\x83\x01" + x + b"\x04"))
+                 ("key-op1", "CoseKey", lambda x: b"\xa2\x01\x04\x04\x82\x01" + x), ("crit1-of-3", "Header", lambda x: b"\xa1\x02\x83\x01" + x + b"\x04"),
+                 # the same positions in every SHAPE of the carrier (optional parts present / absent / empty)
+                 ("recipient4-alg", "CoseRecipient", lambda x: b"\x84\x40\xa1\x01" + x + b"\xf6\x81\x83\x40\xa0\xf6"),
+                 ("recipient4-prot-alg", "CoseRecipient", lambda x: b"\x84" + enc(B(b"\xa1\x01" + x)) + b"\xa0\x41\x63\x81\x83\x40\xa0\xf6"),
+                 ("recipient4-empty-list-alg", "CoseRecipient", lambda x: b"\x84\x40\xa1\x01" + x + b"\xf6\x80"),
+                 ("recipient3-ciphertext-alg", "CoseRecipient", lambda x: b"\x83\x40\xa1\x01" + x + b"\x41\x63"),
+                 ("encrypt-recipient4-alg", "CoseEncrypt", lambda x: b"\x84\x40\xa0\xf6\x81\x84\x40\xa1\x01" + x + b"\x40\x81\x83\x40\xa0\xf6"),
+                 ("mac-recipient4-alg", "CoseMac", lambda x: b"\x85\x40\xa0\xf6\x40\x81\x84\x40\xa1\x01" + x + b"\xf6\x82\x83\x40\xa0\xf6\x83\x40\xa0\xf6"),
+                 ("sign1-alg-with-payload", "CoseSign1", lambda x: b"\x84" + enc(B(b"\xa1\x01" + x)) + b"\xa0\x41\x70\x41\x73"),
+                 ("sign1-unprot-alg-detached", "CoseSign1", lambda x: b"\x84\x40\xa1\x01" + x + b"\xf6\x40"),
+                 ("mac0-alg-with-payload", "CoseMac0", lambda x: b"\x84\x40\xa1\x01" + x + b"\x41\x70\x41\x74"),
+                 ("encrypt0-alg-with-ciphertext", "CoseEncrypt0", lambda x: b"\x83" + enc(B(b"\xa1\x01" + x)) + b"\xa0\x41\x63"),
+                 ("sign-alg-with-signers", "CoseSign", lambda x: b"\x84" + enc(B(b"\xa1\x01" + x)) + b"\xa0\x41\x70\x82\x83\x40\xa0\x40\x83\x40\xa0\x40"),
+                 ("sign-alg-no-signers", "CoseSign", lambda x: b"\x84\x40\xa1\x01" + x + b"\xf6\x80"),
+                 ("encrypt-alg-no-recipients", "CoseEncrypt", lambda x: b"\x84\x40\xa1\x01" + x + b"\xf6\x80"))
     pwin = list(range(-300, 300)) + [-65535, -65536, -65537, 10000, 11060, 11542, 11543, 65535]
     if tier != "quick": pwin = sorted(set(pwin) | set(range(-1000, 12000)))
     import tables as _tb
@@ -742,6 +756,27 @@ def cases_C15(rng, tier):
                 for a in (v + 2**k, v - 2**k):
                     for ty, wrap in pos:
                         out.append(case("dec", ty, wrap(enc(I(a))), fam="wrap-alias:" + regname, strict_err=True))
+    # encode side: a typed field with label n together with an EXTRA label that equals n only after truncation
+    # (n +- 2^8, 2^16, 2^32, 2^33, n + 0x7fffffff * 2^32, -n): distinct labels, both emitted with their exact values
+    for n, kw in ((1, {"alg": d_reg(1, -7)}), (3, {"ctype": d_reg(1, 60)}), (4, {"kid": b"k"}), (5, {"iv": b"i"}), (6, {"piv": b"p"}), (2, {"crit": (d_reg(1, 4),)})):
+        for d in (2**8, 2**16, 2**32, 2**33, 0x7fffffff * 2**32, 2**31, 2**62):
+            for lab in (n + d, n - d, -n - d, d - n):
+                if not -2**63 <= lab < 2**63: continue
+                h = d_header(rest=((I(lab), I(1)),), **kw)
+                want = enc(pyspec.header_map(h))
+                out.append(case("encdec", "Header", enc(h), fam="extra-built-alias-label", expect="ok %s ok %s" % (want.hex(), pyspec.show(pyspec.assign("Header", h)))))
+                d1 = ('a', [d_protected(None, h), D_EMPTY_HEADER, NULL, B(b"")])
+                out.append(case("enc", "CoseSign1", enc(d1), fam="extra-built-alias-label", expect="ok " + enc(pyspec.wire_value("CoseSign1", d1)).hex()))
+    for n in (1, 2, 3, 4, 5):
+        for d in (2**8, 2**16, 2**32, 2**33, 0x7fffffff * 2**32):
+            for lab in (n + d, n - d):
+                b = enc(M((I(1), I(4)), (I(2), B(b"kid")), (I(3), I(-7)), (I(4), A(I(1))), (I(5), B(b"iv")), (I(lab), I(1))))
+                out.append(case("rt", "CoseKey", b, fam="extra-alias-label-key", expect="ok %s T T" % b.hex()))
+    for n in (1, 2, 3, 4, 5, 6, 7):
+        for d in (2**32, 2**33):
+            lab = n - d - 2**17     # private-use range
+            b = enc(M((I(1), T("i")), (I(2), T("s")), (I(3), T("a")), (I(4), I(1)), (I(5), I(1)), (I(6), I(1)), (I(7), B(b"c")), (I(lab), I(1))))
+            out.append(case("rt", "ClaimsSet", b, fam="extra-alias-label-claims", expect="ok %s T T" % b.hex()))
     return out
 
 # ================================================================= C14
@@ -1623,6 +1658,21 @@ def cases_C09(rng, tier):
         out.append(case("dec", ty, b, fam="width-sweep:" + name, **({"expect_re": r"ok .*"} if n >= 1 else {})))
     out += [c for c in wrapped_body_cases(rng) if c["line"].split()[1] in MSG_TYPES]
     out += [c for c in protected_nesting_cases() if c["line"].split()[1] in MSG_TYPES]
+    # every byte-string slot (protected, payload / ciphertext, signature / tag) holding a TAGGED byte string, for every
+    # tag class: a tagged item is not a byte string, whatever the tag promises about its content
+    for ty in MSG_TYPES:
+        good = gen_msg_items(rng, ty, 1)
+        for slot in range(len(good)):
+            v = good[slot]
+            if v[0] not in ('b', 'N'): continue
+            for val in ([v] if v[0] == 'b' else []) + [B(b""), B(b"\x01\x02"), B(b"\xa0")]:
+                for t in (0, 1, 2, 3, 4, 5, 16, 17, 18, 21, 22, 23, 24, 25, 32, 33, 34, 35, 36, 37, 61, 96, 97, 98, 55799, 2**32, 2**64 - 1):
+                    if slot == 0 and val[1] not in (b"", b"\xa0"): continue
+                    items = list(good); items[slot] = G(t, val)
+                    out.append(case("dec", ty, enc(('a', items)), fam="tagged-bstr-in-slot", expect_re=r"err:\w+"))
+                    if ty == "CoseSign":
+                        out.append(case("dec", ty, enc(A(B(b""), M(), NULL, A(A(G(t, B(b"")), M(), B(b"s"))))), fam="tagged-bstr-in-nested-slot", expect_re=r"err:\w+"))
+                        out.append(case("dec", ty, enc(A(B(b""), M(), NULL, A(A(B(b""), M(), G(t, B(b"s")))))), fam="tagged-bstr-in-nested-slot", expect_re=r"err:\w+"))
     return out
 
 # ================================================================= C10
@@ -2496,6 +2546,25 @@ def cases_C02(rng, tier):
         out.append(case("helperhex", "encrypt0.decrypt", m2 if False else enc(A(B(wire), M(), B(b"ct"))), b"aad", fam="length-boundaries:aad", impl_only=True,
                         expect="ok 6374 " + pyspec.enc_structure("CoseEncrypt0", wire, b"aad").hex()))
     out += edited_twins(out)
+    # a signer taken from a received message (retained, non-canonical protected bytes) used as the template of each
+    # signing entry point of the COSE_Sign builder: the stored signer keeps those bytes (they were signed) and the
+    # encoded message carries them
+    import gen as _g
+    _g.wire_protected(rng)
+    for pb, h in _g.WIRE_PROTS:
+        for opn, det in (("add_created_signature", False), ("try_add_created_signature", False), ("add_detached_signature", True), ("try_add_detached_signature", True)):
+            for uh in (D_EMPTY_HEADER, d_header(kid=b"signer")):
+                sg = d_signature(d_protected(pb, h), uh, b"")
+                ops = [A(T("protected"), d_header(alg=d_reg(1, -7)))] + ([] if det else [A(T("payload"), B(b"pl"))])
+                ops.append(A(T(opn), sg, B(b"pl"), B(b"aad"), A(I(0), B(b"kk"))) if det else A(T(opn), sg, B(b"aad"), A(I(0), B(b"kk"))))
+                tbs = pyspec.sig_structure("CoseSignature", enc(pyspec.header_map(d_header(alg=d_reg(1, -7)))), pb, b"aad", b"pl")
+                def chk(c, o, pb=pb, tbs=tbs):
+                    if ("h" + (b"kk" + tbs).hex()) not in o: return "signature not created over the structure holding the retained signer bytes"
+                    if ("[h%s," % pb.hex()) not in o: return "the stored signer no longer carries the retained protected bytes %s" % pb.hex()
+                    return None
+                out.append(case("build", "CoseSign", enc(('a', ops)), fam="signer-template-retained:" + opn, check=chk))
+                out.append(case("buildrt", "CoseSign", enc(('a', ops)), "-", *((b"\x00", b"pl", b"aad") if det else (b"\x00", b"aad")), fam="signer-template-retained-rt:" + opn,
+                                check=(lambda c, o, w=tbs: None if o.endswith(" %s %s" % ((b"kk" + w).hex(), w.hex())) else "verifier did not receive the bytes that were signed")))
     return out
 
 def post_C02(cases, impl):
